@@ -14,7 +14,7 @@ import math
 
 import numpy
 
-from mc import drive, lang as L, enumerate as E, models
+from mc import drive, lang as L, enumerate as E, models, child
 from checks import c01
 
 ID = "C16"
@@ -91,6 +91,9 @@ def items(tier):
     for key, e, ns in family(tier):
         for place in ("der", "inter", "inter-other-component", "via-intermediate"):
             its.append({"key": f"{key}|{place}", "kind": "sing", "expr": e, "place": place, "nsing": ns, "sample": {"key": key, "place": place, "expr": L.render(e)}})
+            if place in ("inter", "via-intermediate") and key.startswith(("single|", "compose|", "mixed")) and "|y|" not in key:
+                its.append({"key": f"{key}|{place}|after-twin", "kind": "sing", "expr": e, "place": place, "nsing": ns, "history": "twin-first",
+                            "sample": {"key": key, "place": place, "history": "a model with the same lines where x is a parameter is processed first in the same process"}})
     return its
 
 
@@ -128,7 +131,46 @@ def _finite_when_both_perturbed(e, x, y, p):
         return False
 
 
+def twin_text(item):
+    """the same assignment lines, but x is a PARAMETER here (so nothing that depends only on x is stateful): processing this model first must not
+    influence how the real model is processed afterwards (no process-wide memoisation keyed by the text of a definition)"""
+    e = L.from_json(item["expr"])
+    def sub(a):
+        if a[0] == "var":
+            return ("var", "u") if a[1] == "x" else a
+        return tuple(sub(c) if isinstance(c, tuple) else c for c in a)
+    lines = ["parameters(p=0.5, x=0.5)", "states(y=1.5)"]
+    if item["place"] == "via-intermediate":
+        lines += [f"u = {L.render(L.bin_('*', n_('1'), v_('x')))}", f"w = {L.render(sub(e))}"]
+    else:
+        lines += [f"w = {L.render(e)}"]
+    lines += ["dy_dt = p - y + w*0"]
+    return "\n".join(lines) + "\n"
+
+
 def run_item(item):
+    """every evaluation happens in a child forked from this (pristine) worker; 'history' items first process the twin model in the same child"""
+    drive.gx()
+    st, out = child.run(_in_child, (item,), timeout=600)
+    if st == "ok":
+        return out
+    res = c01.new_res()
+    res["states"] = 1
+    res["failures"].append({"finding": f"{ID}|child-{st}", "what": f"{item['key']}: {out}", "size": 1, "detail": {}})
+    return res
+
+
+def _in_child(item):
+    if item.get("history") == "twin-first":
+        try:
+            ode = drive.load(twin_text(item))
+            drive.py_code(ode.remove_singularities())
+        except Exception:
+            pass
+    return evaluate(item)
+
+
+def evaluate(item):
     g = drive.gx()
     import mpmath as mp
     res = c01.new_res()
